@@ -284,14 +284,24 @@ def extrema2d(prog, ctx):
         loop = rf[0]
         rng, rowi = loop_container(loop)
         grid_ok = rng.get('k') == 'Member' and rng['name'] == 'function_values'
-        pb = [c for c in calls(loop['body']) if c.get('kind') == 'method' and c['callee']['name'] == 'push_back']
-        if len(pb) != 1:
-            ctx.undecided('C08.e', inst, fn, 'row loop does not collect one value per row')
-            continue
+        # the per-row value: appended to (or stored at the row index of) one local list
         sx = Symx(prog, fn)
         st = State({})
-        A = sx.sym(pb[0]['args'][0], st)
-        collected = sx.lv_name(pb[0]['obj'])
+        writes = []
+        for c in calls(loop['body']):
+            if c.get('kind') == 'method' and c['callee']['name'] == 'push_back' and strip(c['obj']).get('rk') == 'local':
+                writes.append((sx.lv_name(c['obj']), c['args'][0]))
+        for x_ in walk_stmts(loop['body']):
+            for e_ in stmt_exprs(x_):
+                e_ = strip(e_)
+                if e_.get('k') == 'Bin' and e_['op'] == '=' and strip(e_['lhs']).get('k') == 'Index' and strip(strip(e_['lhs'])['base']).get('rk') == 'local' \
+                        and strip_casts(strip(e_['lhs'])['idx']).get('name') == rowi:
+                    writes.append((sx.lv_name(strip(e_['lhs'])['base']), e_['rhs']))
+        if len(writes) != 1:
+            ctx.undecided('C08.e', inst, fn, 'row loop does not collect one value per row')
+            continue
+        A = sx.sym(writes[0][1], st)
+        collected = writes[0][0]
         outs = [o for o in sx.run() if o.kind == 'return']
         if len(outs) != 1:
             B = sp.Piecewise(*[(o.value, o.cond) for o in outs])
